@@ -403,3 +403,41 @@ Proof.
   apply Nat.leb_le in H1. apply Nat.leb_le in H2. split; [lia|].
   destruct (skipn _ text) as [|c r]; [discriminate|]. apply N.eqb_eq in H3. subst. eauto.
 Qed.
+
+(* ---- the language header pattern, the other way round: what is recognised has the shape, nothing else does ---- *)
+Lemma drop_while_split p s : exists a, s = a ++ drop_while p s /\ forallb p a = true.
+Proof.
+  induction s as [|c s IH]; [exists []; auto|]. cbn [drop_while]. destruct (p c) eqn:E.
+  - destruct IH as (a & Ea & Fa). exists (c :: a). cbn [app forallb]. rewrite E, Fa, <- Ea. auto.
+  - exists []. auto.
+Qed.
+Lemma take_while_split p s : s = take_while p s ++ skipn (length (take_while p s)) s /\ forallb p (take_while p s) = true.
+Proof.
+  induction s as [|c s IH]; [auto|]. cbn [take_while]. destruct (p c) eqn:E; [|auto].
+  cbn [length skipn app forallb]. rewrite E. destruct IH as (Ea & Fa). rewrite <- Ea. auto.
+Qed.
+Lemma starts_with_split p : forall s, starts_with p s = true -> s = p ++ skipn (length p) s.
+Proof.
+  induction p as [|c p IH]; intros s H; [reflexivity|]. destruct s as [|d s]; [discriminate|]. cbn [starts_with] in H.
+  apply andb_prop in H as [E H]. apply N.eqb_eq in E. subst d. cbn [app length skipn]. f_equal. exact (IH s H).
+Qed.
+
+Theorem language_header_shape s name : language_header s = Some name ->
+  exists w1 w2 w3 w4 w5, s = w1 ++ [HASH] ++ w2 ++ LANGUAGE_WORD ++ w3 ++ [COLON] ++ w4 ++ name ++ w5
+    /\ forallb is_space w1 = true /\ forallb is_space w2 = true /\ forallb is_space w3 = true /\ forallb is_space w4 = true
+    /\ forallb is_space w5 = true /\ name <> [] /\ forallb is_lang_char name = true.
+Proof.
+  unfold language_header. rewrite <- language_word.
+  destruct (drop_while_split is_space s) as (w1 & E1 & F1). destruct (drop_while is_space s) as [|c s2] eqn:D1; [discriminate|].
+  destruct (c =? HASH) eqn:Eh; [|discriminate]. apply N.eqb_eq in Eh. subst c.
+  destruct (drop_while_split is_space s2) as (w2 & E2 & F2). set (s3 := drop_while is_space s2) in *.
+  destruct (starts_with LANGUAGE_WORD s3) eqn:Sw; [|discriminate]. pose proof (starts_with_split _ _ Sw) as E3.
+  change (length LANGUAGE_WORD) with 8%nat in E3.
+  destruct (drop_while_split is_space (skipn 8 s3)) as (w3 & E4 & F3). destruct (drop_while is_space (skipn 8 s3)) as [|c' s5] eqn:D4; [discriminate|].
+  destruct (c' =? COLON) eqn:Ec; [|discriminate]. apply N.eqb_eq in Ec. subst c'.
+  destruct (drop_while_split is_space s5) as (w4 & E5 & F4). set (s6 := drop_while is_space s5) in *.
+  destruct (take_while_split is_lang_char s6) as (E6 & F6). destruct (take_while is_lang_char s6) as [|n0 nm] eqn:Tk; [discriminate|].
+  destruct (forallb is_space (skipn (length (n0 :: nm)) s6)) eqn:F5; [|discriminate]. intros H. inversion H; subst name.
+  exists w1, w2, w3, w4, (skipn (length (n0 :: nm)) s6). repeat split; try assumption; try discriminate.
+  rewrite E1. f_equal. cbn [app]. f_equal. rewrite E2. f_equal. rewrite E3. f_equal. rewrite E4. f_equal. cbn [app]. f_equal. rewrite E5. f_equal. exact E6.
+Qed.
